@@ -16,6 +16,13 @@ pub fn gen16(tier: &str, rng: &mut Rng) -> Vec<Spec> {
         v.push(Spec::new("mvw").with("N", n).with("off", offs[i % 3].show()).with("xs", join_rats(&xs))); } }
     for w in gains() { for (i, xs) in small_hists(if t { 6 } else { 5 }).into_iter().enumerate() {
         v.push(Spec::new("mve").with("w", w.show()).with("off", offs[i % 3].show()).with("xs", join_rats(&xs))); } }
+    // f64 exponential filter on constant signals with non-dyadic gain/value: mean == c and variance == 0 bit-exactly
+    for (k, c) in [0.1f64, 13.0, 1.1, -0.7].iter().enumerate() { for w in [0.1f64, 0.3, 1.0 / 3.0] {
+        let ex = |x: f64| crate::util::f64_exact(x).unwrap();
+        v.push(Spec::new("mve").with("ty", "f64").with("w", ex(w).show()).with("off", "0").with("xs", join_rats(&vec![ex(*c); 5 + k]))); } }
+    // more than a thousand samples through one sliding-window instance (integers: no overflow of the harness rationals)
+    for n in [2usize, 4] { let xs: Vec<Rat> = (0..1100).map(|k| Rat::int([3, -4, 7, 0, -9, 5, 2, -1][k % 8])).chain((0..32).map(|_| Rat::int(2))).collect();
+        v.push(Spec::new("mvw").with("N", n).with("off", "10").with("xs", join_rats(&xs))); }
     for i in 0..(if t { 3000 } else { 400 }) {
         let len = rng.range(1, if t { 16 } else { 11 }) as usize; let xs = rand_hist(rng, len, 4);
         let off = Rat::new(rng.range(-30, 30) as i128, rng.range(1, 3) as i128);
@@ -41,6 +48,14 @@ pub fn exec16(s: &Spec, stats: &mut Stats) -> Outcome {
         Outcome::Case(format!("mk 0%nat {}%nat 0 {} {} {} {} {}", n, cqlist(&xs), cq(&off), pr(&a.0), pr(&b.0), cbool(a.1 || b.1)))
     } else {
         let w = s.rat("w");
+        if s.has("ty") && s.get("ty") == "f64" {
+            stats.bump("ty:f64-constant");
+            let ex = |x: f64| crate::util::f64_exact(x).unwrap_or(Rat::int(i64::MAX / 16));
+            let mut f = mve::MeanVariance::with_config(mve::Config { inverse_width: w.to_f64() });
+            let mut out = vec![]; let mut bad = false;
+            for x in &xs { match catch(|| f.filter(x.to_f64())) { Ok(o) => out.push((ex(o.mean), ex(o.variance))), Err(_) => { bad = true; break } } }
+            return Outcome::Case(format!("mk 1%nat 0%nat {} {} {} {} {} {}", cq(&w), cqlist(&xs), cq(&off), pr(&out), pr(&out), cbool(bad)));
+        }
         let mk = || mve::MeanVariance::with_config(mve::Config { inverse_width: w });
         let a = run_mv(&mut mk(), &xs, |o| (o.mean, o.variance)); let b = run_mv(&mut mk(), &xs2, |o| (o.mean, o.variance));
         Outcome::Case(format!("mk 1%nat 0%nat {} {} {} {} {} {}", cq(&w), cqlist(&xs), cq(&off), pr(&a.0), pr(&b.0), cbool(a.1 || b.1)))
